@@ -9,8 +9,11 @@
   Proved here: the wrap-around lemma of the reference-second re-basing (BitVec 64 and for the model's
   uint64 arithmetic), the host-table invariant across `AddIndex`, the skip-if-present rule, and
   newest-wins for ids, ports, protocol, byte counts and absolute first/last times.
-  NOT proved (rests on the correspondence check alone): that host *addresses*, source packets and
-  payload bytes of a copied stream are unchanged — the full statement is `MergeViewEq` below.
+  The full statement `MergeViewEq` below (host *addresses*, source packets and payload bytes of a copied
+  stream are unchanged too) is decided in Pk/Props/C07Full.lean: FALSE for arbitrary `Reader` values
+  (`merge_view_eq_counterexample`), PROVED as `merge_view_eq'` for well-formed readers (`Reader.WF`, which
+  every reader of a file written by a reachable writer satisfies: `reachable_reader_wf`, `merged_wf`) whose
+  merge output stays below the format's capacities (`Reader.Fits`).
 -/
 import Pk.Model.Merge
 import Pk.Proofs.MergeHosts
@@ -197,7 +200,7 @@ theorem merge_newest_wins (rs : List Reader) (w w' : Writer) (h : mergeOne rs w 
         exact ih w1 h k hk (fun j r' hj hr' => hnew (j + 1) r' (by omega) (by simpa using hr')) hw1
     · simp at h
 
-/-! ## the full statement (not proved; checked by the tie on every run) -/
+/-! ## the full statement (decided in Pk/Props/C07Full.lean; also checked by the tie on every run) -/
 
 /-- `merge_view_eq`: replacing any suffix of a stack of index files by its merge changes no stream view
     (absolute times, host addresses, ports, protocol, source packets, payload), for every id. -/
